@@ -136,3 +136,46 @@ def spec_cfg(p, **extra):
 def cli_cfg(p):
     return dict(cleavage_rule=p['rule'], cleavage_exception=p['exc'] or None, miscleavage=str(p['misc']),
                 min_mw=p['min_mw'], min_length=p['min_len'], max_length=p['max_len'])
+
+
+# ---- structural records (fusion, circRNA) for synthetic references ---------------------------------
+
+FUSION_HEAD = GVF_HEAD.replace('#CHROM\tPOS', '##INFO=<ID=ACCEPTER_GENE_ID,Number=1,Type=String,Description="Accepter gene">\n#CHROM\tPOS')
+
+
+def fusion_line(ref, dtx, lb, atx, rb):
+    """Fusion record: lb = 0-based genomic position of the last donor base kept, rb = first acceptor base kept."""
+    gd = ref.genes[dtx.gene]; ga = ref.genes[atx.gene]
+    pos = gd.g2gene(lb) + 1            # gene coordinate just past the last donor base
+    apos = ga.g2gene(rb)
+    fid = f'FUSION-{dtx.id}:{pos}-{atx.id}:{apos}'
+    refbase = gd.seq(ref.chroms[gd.chrom])[pos] if pos < gd.end - gd.start else 'A'
+    line = '\t'.join([gd.id, str(pos + 1), fid, refbase, '<FUSION>', '.', '.',
+                      f'TRANSCRIPT_ID={dtx.id};GENE_SYMBOL={gd.name};GENOMIC_POSITION=chr1:{lb + 1}:{lb + 1};ACCEPTER_GENE_ID={ga.id};'
+                      f'ACCEPTER_TRANSCRIPT_ID={atx.id};ACCEPTER_SYMBOL={ga.name};ACCEPTER_POSITION={apos + 1};'
+                      f'ACCEPTER_GENOMIC_POSITION=chr1:{rb + 1}:{rb + 1}'])
+    return fid, line
+
+
+def circ_line(ref, tx, exon_idx):
+    """circRNA of the given exons (indices into tx.exons, genomic order)."""
+    g = ref.genes[tx.gene]
+    blocks = [tx.exons[k] for k in exon_idx]
+    frags = []
+    for s, e in blocks:
+        a, b = (g.g2gene(s), g.g2gene(e - 1) + 1) if g.strand == 1 else (g.g2gene(e - 1), g.g2gene(s) + 1)
+        frags.append((a, b))
+    frags.sort()
+    start = frags[0][0]
+    cid = f'CIRC-{tx.id}-{start}:{frags[-1][1]}'
+    line = '\t'.join([g.id, str(start), cid, '.', '.', '.', '.',
+                      f"OFFSET={','.join(str(a - start) for a, b in frags)};LENGTH={','.join(str(b - a) for a, b in frags)};INTRON=;"
+                      f"TRANSCRIPT_ID={tx.id};GENE_SYMBOL={g.name};GENOMIC_POSITION=chr1:{blocks[0][0]}:{blocks[-1][1]}"])
+    return cid, line
+
+
+def write_gvf_lines(path, lines, parser, source):
+    with open(path, 'w') as f:
+        f.write(GVF_HEAD.format(parser=parser, source=source))
+        for l in lines:
+            f.write(l + '\n')
